@@ -14,7 +14,8 @@
    storage order.  Not modelled: locators, timestamps, inline QoS (always empty here),
    key_flag (always false), HEARTBEAT submessages inside the writer's datagrams (the
    harness feeds heartbeats explicitly).
-   Follows /repo after the fix commits 9534038 46bd1ab f7fe2df d6a64f9 a2cc75b d077ac8. *)
+   Follows /repo after the fix commits 9534038 46bd1ab f7fe2df d6a64f9 a2cc75b d077ac8 and
+   1f8d93c (HEARTBEAT firstSN <= 0), 9291c1e (sn = i64::MAX), 84c5233 (fragments_in_submessage bound). *)
 From DustDDS Require Export Base.Machine.
 From Coq Require Export Sorted.
 Open Scope Z_scope.
@@ -234,6 +235,7 @@ Definition received_change_set (r : rstate) (sn : Z) : rstate :=
 
 (* on_data_submessage (payload p; try_from_data_submessage cannot fail without inline QoS) *)
 Definition r_on_data (r : rstate) (sn : Z) (p : bytes) : rstate :=
+  if sn =? i64_max then r (* i64::MAX is not accepted from the wire *) else
   let expected := available_changes_max r + 1 in
   if r_rel r then
     if sn =? expected then
@@ -249,7 +251,10 @@ Definition r_on_data (r : rstate) (sn : Z) (p : bytes) : rstate :=
 
 (* on_data_frag_submessage *)
 Definition r_on_frag (r : rstate) (fr : frag) : res rstate :=
-  if fr_fsize fr =? 0 then Ok r (* fragment size 0 is ignored *) else
+  (* ignored: fragment size 0, sequence number i64::MAX, more fragments announced than the payload
+     can hold (fragments_in_submessage > payload length + 1) *)
+  if (fr_fsize fr =? 0) || (fr_sn fr =? i64_max) then Ok r else
+  if blen (fr_data fr) + 1 <? fr_nsub fr then Ok r else
   let sn := fr_sn fr in
   let expected := available_changes_max r + 1 in
   let accept := if r_rel r then sn =? expected else expected <=? sn in
@@ -333,6 +338,7 @@ Definition r_write_message (r : rstate) : res (rstate * option (acknack * option
 (* heartbeat handling of communication_methods.rs (liveliness flag false) *)
 Definition r_on_heartbeat (r : rstate) (first last count : Z) (final : bool)
   : res (rstate * option (acknack * option nackfrag)) :=
+  if first <=? 0 then Ok (r, None) (* a HEARTBEAT with firstSN <= 0 is ignored *) else
   if r_hbcount r <? count then
     let r1 := mkR (r_rel r) first last (r_highest r) (r_buf r) (r_must r) count
                   (r_ackcount r) (r_nfcount r) (r_changes r) in
